@@ -405,7 +405,28 @@ func runGovc(opt Options) (*Report, error) {
 			q := o.query()
 			fname := fmt.Sprintf("q%04d", i)
 			useCvc5 := true
-			o.Res = runPortfolio(work, fname, q, opt.Timeout, useCvc5)
+			to := opt.Timeout
+			if o.Vacuity && to > 3 {
+				to = 3 // cover checks are best effort
+			}
+			// stage A: quantifier-free relaxation (dropping assumptions is sound for proving; fast; gives models)
+			relaxed, dropped := o.relaxedQuery()
+			if dropped > 0 && !o.Vacuity {
+				ra := runPortfolio(work, fname+"r", relaxed, min(to, 10), useCvc5)
+				if ra.Result == "unsat" {
+					ra.Solver += " (quantifier-free)"
+					o.Res = ra
+				} else {
+					o.Res = runPortfolio(work, fname, q, to, useCvc5)
+					if o.Res.Result != "unsat" && o.Res.Result != "sat" && ra.Result == "sat" {
+						o.Res.Model = ra.Model
+						o.Res.Output += "\ncandidate model from the quantifier-free relaxation (quantified assumptions dropped; may be spurious)"
+						o.RelaxedModel = true
+					}
+				}
+			} else {
+				o.Res = runPortfolio(work, fname, q, to, useCvc5)
+			}
 			if dumpRe != nil && dumpRe.MatchString(o.Name) {
 				_ = os.WriteFile(filepath.Join(work, "dump_"+sanitize(strings.ReplaceAll(o.Name, "/", "_"))+".smt2"), []byte(q), 0o644)
 			}
@@ -440,6 +461,7 @@ func runGovc(opt Options) (*Report, error) {
 		default:
 			or.Result = "undischarged"
 			or.Output = o.Res.Output
+			or.Model = o.Res.Model
 		}
 		rep.SolverMs[o.Res.Solver] += o.Res.Ms
 		rep.Obligations = append(rep.Obligations, or)
@@ -465,6 +487,32 @@ func runGovc(opt Options) (*Report, error) {
 	return rep, nil
 }
 
+// relaxedQuery drops every assertion that contains a quantifier.
+func (o *Obligation) relaxedQuery() (string, int) {
+	fg := o.fg
+	var sb strings.Builder
+	sb.WriteString("; obligation " + o.Name + " (quantifier-free relaxation)\n")
+	for _, d := range fg.decls {
+		sb.WriteString(d)
+		sb.WriteByte('\n')
+	}
+	dropped := 0
+	for _, a := range fg.asserts[:o.NAsserts] {
+		if strings.Contains(a, "(forall ") || strings.Contains(a, "(exists ") {
+			dropped++
+			continue
+		}
+		sb.WriteString(a)
+		sb.WriteByte('\n')
+	}
+	goal := And(o.Guard, Not(o.Goal)).S
+	if strings.Contains(goal, "(forall ") || strings.Contains(goal, "(exists ") {
+		return "", 0
+	}
+	sb.WriteString("(assert " + goal + ")\n(check-sat)\n(get-model)\n")
+	return sb.String(), dropped
+}
+
 func (o *Obligation) query() string {
 	fg := o.fg
 	var sb strings.Builder
@@ -485,7 +533,3 @@ func (o *Obligation) query() string {
 	return sb.String()
 }
 
-func checkMain(args []string) {
-	fmt.Fprintln(os.Stderr, "check: not implemented yet")
-	os.Exit(2)
-}
